@@ -30,6 +30,10 @@ impl Family {
     }
 }
 
+/// makes the caller side's description slow to obtain, so that a negotiation takes long enough for other threads
+/// to arrive while it is under way
+pub static SLOT_DELAY_MS: std::sync::atomic::AtomicU64 = std::sync::atomic::AtomicU64::new(0);
+
 static SLOTS: Mutex<Option<HashMap<(bool, usize), Family>>> = Mutex::new(None);
 
 fn slot(callee: bool, n: usize) -> Family {
@@ -52,6 +56,10 @@ type Receiver = unsafe extern "C" fn(outcome: *const RawAbiCallResult, result_re
 unsafe impl<const N: usize> AbiExportable for dyn CallerSlot<N> {
     const ABI_ENTRY: unsafe extern "C" fn(AbiProtocol) = caller_entry::<N>;
     fn get_definition(version: u32) -> AbiTraitDefinition {
+        let ms = SLOT_DELAY_MS.load(std::sync::atomic::Ordering::SeqCst);
+        if ms > 0 {
+            std::thread::sleep(std::time::Duration::from_millis(ms));
+        }
         slot(false, N).at(version)
     }
     fn get_latest_version() -> u32 {
@@ -132,6 +140,64 @@ pub fn refused_interface_probe() -> String {
     set_slot(false, 31, Family { defs: vec![d.clone()] });
     set_slot(true, 31, Family { defs: vec![d] });
     connect_slot::<31>()
+}
+
+
+/// Several threads ask, at the same moment and for the first time in this process, for a connection that is refused:
+/// with an error (the two sides disagree about a method's argument count; slot 30) or with a panic (more than 64
+/// methods; slot 31).  Every thread must come back with the refusal a single thread gets.  Returns the replies, or
+/// `None` for a thread that did not come back within `secs`.
+pub fn concurrent_refused_probe(threads: usize, with_panic: bool, secs: u64) -> Vec<Option<String>> {
+    use std::sync::{mpsc, Arc, Barrier};
+    let mut r = Rng::new(9);
+    if with_panic {
+        let methods: Vec<AbiMethod> = (0..65).map(|i| gen_method(&mut r, i, 0)).collect();
+        let d = AbiTraitDefinition { name: "Wide".into(), methods, sync: false, send: false };
+        set_slot(false, 31, Family { defs: vec![d.clone()] });
+        set_slot(true, 31, Family { defs: vec![d] });
+    } else {
+        let prim = |p| Schema::Primitive(p);
+        let m = |n: usize| AbiMethod {
+            name: "m0".into(),
+            info: AbiMethodInfo {
+                return_value: prim(savefile::SchemaPrimitive::schema_u32),
+                receiver: ReceiverType::Shared,
+                arguments: (0..n).map(|_| AbiMethodArgument { schema: prim(savefile::SchemaPrimitive::schema_u16) }).collect(),
+                async_trait_heuristic: false,
+            },
+        };
+        set_slot(false, 30, Family { defs: vec![AbiTraitDefinition { name: "Two".into(), methods: vec![m(1)], sync: false, send: false }] });
+        set_slot(true, 30, Family { defs: vec![AbiTraitDefinition { name: "Two".into(), methods: vec![m(2)], sync: false, send: false }] });
+    }
+    SLOT_DELAY_MS.store(25, std::sync::atomic::Ordering::SeqCst);
+    let barrier = Arc::new(Barrier::new(threads));
+    let (tx, rx) = mpsc::channel::<(usize, String)>();
+    for t in 0..threads {
+        let tx = tx.clone();
+        let barrier = barrier.clone();
+        std::thread::spawn(move || {
+            barrier.wait();
+            // a little apart, so that some arrive while the first is in the middle of its negotiation
+            std::thread::sleep(std::time::Duration::from_millis(3 * t as u64));
+            let rep = if with_panic { connect_slot::<31>() } else { connect_slot::<30>() };
+            let _ = tx.send((t, rep));
+        });
+    }
+    drop(tx);
+    let mut out: Vec<Option<String>> = vec![None; threads];
+    let deadline = std::time::Instant::now() + std::time::Duration::from_secs(secs);
+    let mut n = 0;
+    while n < threads {
+        match rx.recv_timeout(deadline.saturating_duration_since(std::time::Instant::now())) {
+            Ok((t, rep)) => {
+                out[t] = Some(rep);
+                n += 1;
+            }
+            Err(_) => break,
+        }
+    }
+    SLOT_DELAY_MS.store(0, std::sync::atomic::Ordering::SeqCst);
+    out
 }
 
 pub fn hexname(s: &str) -> String {
